@@ -222,6 +222,11 @@ def run(ctx):
     from props import C02_enum
     C02_enum.run(ctx)
     # <<< w_c02
+    # >>> w_fwd (wave 5): the method tables of the text Deserializer impls (Tables.de_tables, generated from src/text/de.rs)
+    # against the real deserializers through a recording visitor (props/demeth.py, Props/C02_methods.v)
+    from props import demeth
+    demeth.run_text(ctx)
+    # <<< w_fwd
 
     # scalar level: extracted Serde.text_scalar (typed hints with fall-back) against the real slice path
     from props import descalar
